@@ -78,7 +78,7 @@ func init() {
 
 	// ---- bytes.Buffer
 	bufK := map[string]Sort{kBufLen: arrOf(SInt)}
-	for _, n := range []string{"(*bytes.Buffer).Write", "(*bytes.Buffer).WriteString", "(*bytes.Buffer).WriteByte", "(*bytes.Buffer).Reset", "(*bytes.Buffer).Read", "(*bytes.Buffer).WriteTo", "(*bytes.Buffer).ReadFrom", "(*bytes.Buffer).Truncate", "(*bytes.Buffer).Next"} {
+	for _, n := range []string{"(*bytes.Buffer).Write", "(*bytes.Buffer).WriteString", "(*bytes.Buffer).WriteByte", "(*bytes.Buffer).Reset", "(*bytes.Buffer).Read", "(*bytes.Buffer).WriteTo", "(*bytes.Buffer).ReadFrom", "(*bytes.Buffer).Truncate", "(*bytes.Buffer).Next", "(*bytes.Buffer).Grow"} {
 		libFrames[n] = bufK
 	}
 	bufNil := func(x *Exec, fr *Frame, st *State, b Term, what string, pos token.Pos) {
@@ -98,20 +98,25 @@ func init() {
 	regModel("(*bytes.Buffer).Cap", func(x *Exec, fr *Frame, st *State, a []Value, pos token.Pos, rt types.Type) (Value, bool) {
 		b := tOf(a[0])
 		bufNil(x, fr, st, b, "Cap", pos)
-		c := x.vc.Fresh("bcap", SInt)
-		x.vc.Assert(And(Ge(c, IntLit(0)), Le(c, BigLit(pow2(48)))))
-		return VTerm{c}, true
+		return VTerm{x.bufCapTerm(st, b)}, true
 	})
 	regModel("(*bytes.Buffer).Reset", func(x *Exec, fr *Frame, st *State, a []Value, pos token.Pos, rt types.Type) (Value, bool) {
 		b := tOf(a[0])
 		bufNil(x, fr, st, b, "Reset", pos)
 		x.setBufLen(st, b, IntLit(0))
+		x.bufMarkUnread(st, b)
 		return VStruct{}, true
 	})
 	regModel("(*bytes.Buffer).Grow", func(x *Exec, fr *Frame, st *State, a []Value, pos token.Pos, rt types.Type) (Value, bool) {
 		b := tOf(a[0])
 		bufNil(x, fr, st, b, "Grow", pos)
 		x.oblige(fr, st, "bounds", "Grow:"+x.srcText(fr.fn, pos, isCall), "bytes.Buffer.Grow panics on a negative count", pos, Ge(tOf(a[1]), IntLit(0)), nil)
+		// the capacity changes: start a new version of the buffer state so that capacity terms
+		// recorded for the old version are not reused (see bufCapTerm)
+		l := x.vc.Fresh("blen.grown", SInt)
+		x.assume(st, Eq(l, x.bufLen(st, b)))
+		x.setBufLen(st, b, l)
+		x.bufMeta = map[string]*bufMeta{}
 		return VStruct{}, true
 	})
 	wr := func(x *Exec, fr *Frame, st *State, a []Value, pos token.Pos, n Term) (Value, bool) {
@@ -163,6 +168,14 @@ func init() {
 		bufNil(x, fr, st, b, "Bytes", pos)
 		s := x.fresh(types.NewSlice(types.Typ[types.Uint8]), "bytes").(VSlice)
 		x.assume(st, Eq(s.Len, x.bufLen(st, b)))
+		// Bytes() is buf[off:], so its capacity is Cap()-off; off is 0 for a buffer nothing was
+		// read from since it was reset / taken from the pool
+		c := x.bufCapTerm(st, b)
+		if m := x.bufMeta[b.S]; m != nil && m.unreadAt == x.bufVersion(st) {
+			x.assume(st, Eq(s.Cap, c))
+		} else {
+			x.assume(st, Le(s.Cap, c))
+		}
 		return s, true
 	})
 	regModel("(*bytes.Buffer).WriteTo", func(x *Exec, fr *Frame, st *State, a []Value, pos token.Pos, rt types.Type) (Value, bool) {
@@ -300,6 +313,7 @@ func init() {
 		x.assume(st, Not(x.bufOwned(st, r))) // not owned by anybody at the time of the call
 		x.setBufOwned(st, r, TTrue)
 		x.setBufLen(st, r, IntLit(0))
+		x.bufMarkUnread(st, r)
 		return VTerm{r}, true
 	})
 	regModel(pfx+"Put", func(x *Exec, fr *Frame, st *State, a []Value, pos token.Pos, rt types.Type) (Value, bool) {
@@ -329,4 +343,47 @@ func init() {
 		x.setBufLen(st, r, data.Len)
 		return VTerm{r}, true
 	})
+}
+
+// bufMeta: bookkeeping (not part of the logical state) that lets Cap() and Bytes() agree on the
+// capacity of a buffer as long as the buffer state (the buf|len array term) is literally the same
+// version. Every buffer operation and every havoc produces a new version, so stale entries are
+// simply never matched.
+type bufMeta struct {
+	capAt    string
+	capTerm  Term
+	unreadAt string
+}
+
+func (x *Exec) bufVersion(st *State) string { return x.heapGet(st, kBufLen, arrOf(SInt)).S }
+
+func (x *Exec) bufMarkUnread(st *State, b Term) {
+	if x.bufMeta == nil {
+		x.bufMeta = map[string]*bufMeta{}
+	}
+	m := x.bufMeta[b.S]
+	if m == nil {
+		m = &bufMeta{}
+		x.bufMeta[b.S] = m
+	}
+	m.unreadAt = x.bufVersion(st)
+}
+
+func (x *Exec) bufCapTerm(st *State, b Term) Term {
+	if x.bufMeta == nil {
+		x.bufMeta = map[string]*bufMeta{}
+	}
+	m := x.bufMeta[b.S]
+	if m == nil {
+		m = &bufMeta{}
+		x.bufMeta[b.S] = m
+	}
+	v := x.bufVersion(st)
+	if m.capAt != v || !m.capTerm.Valid() {
+		c := x.vc.Fresh("bcap", SInt)
+		x.vc.Assert(And(Ge(c, IntLit(0)), Le(c, BigLit(pow2(48)))))
+		m.capAt, m.capTerm = v, c
+	}
+	x.assume(st, Ge(m.capTerm, x.bufLen(st, b)))
+	return m.capTerm
 }
